@@ -397,16 +397,34 @@ class Facts:
                         arg_nodes = ([n["recv"]] + list(n.get("args", []))) if n.get("k") == "MethodCall" else list(n.get("args", []))
                         lits = {}
 
+                        names = {}
+
+                        def field_of_local(x):
+                            x = strip(x) if isinstance(x, dict) else {}
+                            while x.get("k") == "Field":
+                                x = strip(x["e"])
+                            return x.get("k") == "Path" and x.get("res", {}).get("r") == "local"
+
                         def bind_lit(pat, arg):
                             a_ = strip(arg) if isinstance(arg, dict) else {}
-                            simple = a_.get("k") == "Lit" or (a_.get("k") == "Path" and a_.get("res", {}).get("r") in ("local", "const", "ctor", "static"))
+                            simple = a_.get("k") == "Lit" or (a_.get("k") == "Path" and a_.get("res", {}).get("r") in ("local", "const", "ctor", "static")) or \
+                                (a_.get("k") == "Field" and field_of_local(a_))
                             if pat.get("p") == "Bind" and "sub" not in pat and simple and isinstance(pat.get("id"), int):
                                 lits[fresh(pat["id"])] = arg if a_.get("k") != "Lit" else a_
+                                if a_.get("k") == "Lit" and isinstance(a_.get("v"), (str, int)) and not isinstance(a_.get("v"), bool):
+                                    names[pat.get("name")] = str(a_["v"])
                             elif pat.get("p") == "Tuple" and a_.get("k") in ("Tup", "Array") and len(pat.get("pats", [])) == len(a_.get("es", [])):
                                 for q_, x_ in zip(pat["pats"], a_["es"]):
                                     bind_lit(q_, x_)
                         for pat, arg in zip(new[c].get("params", []), arg_nodes):
                             bind_lit(pat, arg)
+                        if names:
+                            # format!("{direction}_outline_{i}") with direction = "forward" reads format!("forward_outline_{i}")
+                            import re as _re
+                            for m in walk(cp):
+                                if isinstance(m.get("mac_src"), str) and "{" in m["mac_src"]:
+                                    for nm_, txt in names.items():
+                                        m["mac_src"] = _re.sub(r"(?<!\{)\{%s\}(?!\})" % _re.escape(nm_), txt.replace("{", "{{").replace("}", "}}").replace("\\", "\\\\"), m["mac_src"])
                         if lits:
                             for m in list(walk(cp)):
                                 r_ = m.get("res")
